@@ -109,6 +109,23 @@ def gen(seed, index):
     return scn
 
 
+def systematic():
+    """Short histories run before the seeded exploration: every way a header reaches the kernel (quoted, nested, angle
+    through include paths) x file / string kernel x fresh process per build / one process for all builds: build, edit,
+    build, revert, build, then an include-graph change."""
+    out = []
+    for angle in (0, 1, 2):
+        for kind in ("file", "string"):
+            for inproc in (1, 3):
+                for hdr in ("a.h", "c.h"):
+                    init = {"a.h": [1, hdr == "c.h"], "b.h": [2, False], "c.h": [3, False]}
+                    ops = [["build", kind], ["set", hdr, 5], ["build", kind], ["revert"], ["build", kind],
+                           ["toggle_include", "b.h"], ["build", kind], ["set", "c.h", 4], ["build", kind]]
+                    out.append({"seed": 2000 + len(out), "mode": "Serial" if len(out) % 3 else "OpenMP", "init": init, "ops": ops,
+                                "raw": False, "angle": angle, "inproc": inproc})
+    return out
+
+
 def job_spec(kind, sb, raw):
     props = {"compiler": sc.simcc()}
     if raw:
@@ -313,7 +330,7 @@ def minimise(ex, scn, out, cls):
 def main(tier):
     ps.ensure_engine()
     ex = pscheck.Explorer(PROP, tier, "exploration", gen, execute, signature, minimise)
-    ex.report.rule = ("one run = a seeded history of 5-25 operations (set header contents from a 6-letter alphabet, copy/swap contents "
+    ex.report.rule = ("24 systematic histories first (inclusion kind x file/string kernel x process grouping x edited header); then: one run = a seeded history of 5-25 operations (set header contents from a 6-letter alphabet, copy/swap contents "
                       "between headers, add/remove a nested #include, revert two steps, clock jump, build of a file kernel or of a "
                       "string kernel with an includes property; 12% of histories use a non-OKL kernel) with every build in a fresh "
                       "simulated process on one shared cache, or (half of the histories) 2-4 consecutive builds and the edits "
@@ -323,6 +340,9 @@ def main(tier):
         "headers live in the project directory next to the kernel; include paths are not varied",
         "builds are sequential (concurrency is C09's subject)",
     ]
+    sysc = systematic()
+    for sscn, o in zip(sysc, ex.pool.map(pscheck._exec_task, [(execute, x) for x in sysc])):
+        ex.absorb(sscn, o)
     ex.explore(common.budget(tier, 80, 900))
     return ex.finish()
 
